@@ -62,6 +62,10 @@ class KLSVD(BaseDimensionReduction):
     __RANDOM_SVD_MAXIMUM_RANK = "KarhunenLoeveSVDAlgorithm-RandomSVDMaximumRank"
     __RANDOM_SVD_VARIANT = "KarhunenLoeveSVDAlgorithm-RandomSVDVariant"
     __USE_RANDOM_SVD = "KarhunenLoeveSVDAlgorithm-UseRandomSVD"
+    __DEFAULT_RANDOM_SVD_MAXIMUM_RANK = ResourceMap.GetAsUnsignedInteger(
+        __RANDOM_SVD_MAXIMUM_RANK
+    )
+    """The default value of OpenTURNS for the number of singular values."""
 
     def __init__(
         self,
@@ -121,11 +125,13 @@ class KLSVD(BaseDimensionReduction):
         """Update OpenTURNS constants by using its ResourceMap."""
         use_random_svd = self.parameters["use_random_svd"]
         ResourceMap.SetAsBool(self.__USE_RANDOM_SVD, use_random_svd)
-        n_singular_values = self.parameters["n_singular_values"]
-        if n_singular_values:
-            ResourceMap.SetAsUnsignedInteger(
-                self.__RANDOM_SVD_MAXIMUM_RANK, n_singular_values
-            )
+        # The ResourceMap is global: without resetting the default value,
+        # the number of singular values of a previous instance would be used.
+        ResourceMap.SetAsUnsignedInteger(
+            self.__RANDOM_SVD_MAXIMUM_RANK,
+            self.parameters["n_singular_values"]
+            or self.__DEFAULT_RANDOM_SVD_MAXIMUM_RANK,
+        )
         ResourceMap.SetAsString(
             self.__RANDOM_SVD_VARIANT,
             self.__HALKO2010 if self.parameters["use_halko2010"] else self.__HALKO2011,
